@@ -184,6 +184,7 @@ class Normaliser:
         self.cls = cls
         self.keep = set(keep or ())       # call names (as unparsed: "self._set_steps", "calculate_steps") never inlined
         self.do_inline = inline
+        self._caller_locals = None
         self.repo, self.package = repo, package    # repo: Path of the tree; lets calls of functions imported from other
         self._foreign: dict = {}                    # modules of the same package be followed too
         self.mutators = set(mutators or ())   # method names known to rebind attributes of their receiver
@@ -195,6 +196,7 @@ class Normaliser:
         fn = copy.deepcopy(fn)
         self._stack = [fn.name]
         self._budget = 24
+        self._caller_locals = stored_names(fn) - {fn.name}
         self._strip(fn)
         for _ in range(8):
             before = ast.dump(fn)
@@ -409,6 +411,10 @@ class Normaliser:
             body, result = tree, ast.Name(res, ast.Load())
         k = next(_fresh)
         locs = stored_names(c) - ({"self"} if is_method else set())
+        # a global the callee reads must not be a local of the function it is spliced into
+        free = {n.id for n in ast.walk(c) if isinstance(n, ast.Name) and isinstance(n.ctx, ast.Load)} - locs
+        if self._caller_locals is not None and free & (self._caller_locals - {"self"}):
+            return None
         ren = {x: f"{x}__h{k}" for x in locs}
         holder = ast.Module(body=body + ([ast.Expr(result)] if result is not None else []), type_ignores=[])
         _Rename(ren).visit(holder)
@@ -1058,6 +1064,7 @@ _SAMPLES = r'''
 LIMITS = (1, 5)
 NAMES = ("a", "b", "c")
 SKIP = "b"
+GREETING = "hello"
 
 def _chk(first, start=0.0):
     if first == 0:
@@ -1078,6 +1085,9 @@ def _pick(box, v):
         return "neg"
     box["pos"] = v
     return v * 2
+
+def _uses_global(log):
+    log.append(GREETING)
 
 def _fill(box, key, val):
     box[key] = val
@@ -1228,6 +1238,10 @@ class Box:
         for o in (self.items, self.log):
             o.clear()
         return (self.items, self.log)
+    def s_shadowed_global(self, v):                     # expect: !inline:_uses_global
+        GREETING = (v, v)
+        _uses_global(self.log)
+        return (GREETING, self.log)
     def s_expr_helper(self, v):                         # expect: inline-expr:_twice
         return _twice(v) + 1
     def s_method_helper(self):                          # expect: inline:_reset_items
@@ -1245,7 +1259,7 @@ _INPUTS = {
     "s_unroll": [(True,), (False,), (0,), ("x",)], "s_chain": [(0,), (1,), (5,), (6,)],
     "s_chain2": [(1, 2), (0, 2), (3, 2), (3, 10)], "s_ifexp": [(0,), (1,), ("",), ([1],)],
     "s_inverted": [(0,), (1,)], "s_counter": [([],), ([5, 6],)], "s_counter_read_after": [([],), ([5, 6],)], "s_fresh_object": [([1, 2],)], "s_match": [(1,), (2,), ("big",), (None,)], "s_early_return": [(True,), (False,)],
-    "s_value_helper": [(7,)], "s_tail_helper": [(None,), (0,), (-1,), (4,)], "s_tuple_loop": [()], "s_common_return": [(0,), (2,)], "s_sink": [(None,), (0,), (3,)], "s_expr_helper": [(2,), ("a",)], "s_method_helper": [()],
+    "s_value_helper": [(7,)], "s_tail_helper": [(None,), (0,), (-1,), (4,)], "s_tuple_loop": [()], "s_shadowed_global": [(3,)], "s_common_return": [(0,), (2,)], "s_sink": [(None,), (0,), (3,)], "s_expr_helper": [(2,), ("a",)], "s_method_helper": [()],
     "s_boolfold": [(0,), (1,), ("",), ([],)],
 }
 
